@@ -81,11 +81,12 @@ def run(ctx):
         itab, btab, stab, info = excelgen.experiment(rng, base, n_inst=int(rng.integers(1, 3)), n_beads=int(rng.integers(1, 3)) if plot or rng.random() < 0.7 else 0,
                                                      n_samples=int(rng.integers(1, 4)) if plot else int(rng.integers(1, 5)),
                                                      units_pool=['', 'Channel', 'RFI', 'a.u.', 'MEF', 'mef', 'au'], nfl=3 if ncl == 3 else None,
-                                                     force_float_first=hist and cid[1] % 4 != 3)   # 2^18-resolution channel on the histogram sheet
+                                                     force_float_first=hist and cid[1] % 4 != 3,   # 2^18-resolution channel on the histogram sheet
+                                                     zero_fraction_first=cid[1] % 3 == 1 or cid[1] % 6 == 3)            # a row whose gate keeps no event
         # clustering channels: 1, 2 or 3 of the instrument's fluorescence channels
         for bid in btab.index:
             fl = [c.strip() for c in itab.at[btab.at[bid, 'Instrument ID'], 'Fluorescence Channels'].split(',')]
-            btab.at[bid, 'Clustering Channels'] = ', '.join(fl[:ncl])
+            btab.at[bid, 'Clustering Channels'] = excelgen.join(rng, fl[:ncl])
         inp = os.path.join(base, 'experiment input.xlsx')
         excelgen.write_input_workbook(inp, itab, btab, stab)
         outp = os.path.join(base, 'custom_out.xlsx') if explicit else None
@@ -218,7 +219,7 @@ def run(ctx):
             ctx.case_done(class_key=('example', plot), nontrivial=True, distinct_key=core.digest(cid))
             shutil.rmtree(dst, ignore_errors=True)
     # ---- write_workbook / read_table round trip -------------------------------------------------
-    nrt = 60 if ctx.tier == 'quick' else 1500
+    nrt = 150 if ctx.tier == 'quick' else 1500
     # strings that the spreadsheet reader itself interprets (numeric-looking text, NA markers such as 'None'/'NA') are not
     # among the cell kinds of the statement and are left out
     words = ['alpha', 'beta gamma', 'x/y', '100%', ' lead', 'trail ', 'MiXed', 'a,b', 'FL1-H', 'ID', 'v0', 'Nothing', 'nan-ish', 'é', '-']
@@ -260,7 +261,14 @@ def run(ctx):
         dd = dict(mode=mode, shape=[nr, nc])
         if not ctx.check(not ow.raised, 'roundtrip:write-raised', cid, exc=core.exc_str(ow.exc) if ow.raised else None, **dd):
             continue
-        orr = core.attempt(E.read_table, path, 'First', 'ID')
+        # the sheet and the identifier column are documented as "name or index": both spellings must read the same table
+        icol = ['ID', 0, 'ID', np.int64(0)][int(rng.integers(4))]
+        sheet = ['First', 0][int(rng.integers(2))]
+        dd.update(index_col=repr(icol), sheet=repr(sheet))
+        orr = core.attempt(E.read_table, path, sheet, icol)
+        if orr.raised and not isinstance(icol, (str, int)) and mode != 'dups':
+            ctx.note('form-refused:index_col:' + type(icol).__name__)      # a refused spelling is observed only
+            orr = core.attempt(E.read_table, path, sheet, 'ID')
         if mode == 'dups':
             if ctx.check(orr.raised and isinstance(orr.exc, ValueError), 'roundtrip:duplicate-identifiers-accepted', cid, **dd):
                 ctx.refusal('duplicates:ValueError')
@@ -276,7 +284,7 @@ def run(ctx):
                 bad = [(r, c, repr(want.iloc[r][c]), repr(back.iloc[r][c])) for r in range(len(want)) for c in want.columns
                        if not cell_eq(want.iloc[r][c], back.iloc[r][c])]
                 ctx.check(not bad, 'roundtrip:cells', cid, first=bad[:3], **dd)
-            o2 = core.attempt(E.read_table, path, 'Other Sheet', 'K')
+            o2 = core.attempt(E.read_table, path, ['Other Sheet', 1][int(rng.integers(2))], ['K', 0][int(rng.integers(2))])
             ctx.check((not o2.raised) and list(o2.value.index) == ['a', 'b'], 'roundtrip:second-sheet', cid)
         for badname in (None, ['First', 'Other Sheet']):
             ob = core.attempt(E.read_table, path, badname, 'ID')
